@@ -159,6 +159,10 @@ func shSession(r *rng, tokenLen int) *sessionsapi.SessionState {
 	}
 	if r.intn(3) != 0 {
 		t := time.Now().Add(-time.Duration(r.intn(3000)) * time.Second).Add(time.Duration(r.intn(1000)) * time.Millisecond)
+		if r.intn(5) == 0 {
+			// saved by a replica of this proxy whose clock runs up to four minutes ahead (inside the five minutes allowed for)
+			t = time.Now().Add(time.Duration(1+r.intn(240)) * time.Second)
+		}
 		ss.CreatedAt = &t
 	}
 	if r.bool() {
